@@ -28,7 +28,7 @@ Checks(e) ==
     [] e.ev = "panic" -> << <<FALSE, "panic while handling a response">> >>
     [] e.ev = "stuck" -> << <<FALSE, "requests still waiting after two virtual minutes">> >>
     [] e.ev = "end" -> << <<DOMAIN done = issued, "an issued request never completed">> >>
-    [] e.ev = "driver_failed" -> << <<FALSE, "driver died (panic or goroutines blocked forever)">> >>
+    [] e.ev = "driver_failed" -> << <<FALSE, "the client panicked while handling the connection (the driver died with it)">> >>
     [] OTHER -> <<>>
 Ok(e) == \A i \in DOMAIN Checks(e) : Checks(e)[i][1]
 Why(e) == LET C == Checks(e) bad == {i \in DOMAIN C : ~C[i][1]} IN IF bad = {} THEN "" ELSE C[CHOOSE i \in bad : \A j \in bad : i <= j][2]
